@@ -1,11 +1,11 @@
 (* C19 model runner: one case per line on stdin, one result per line on stdout.
    M <hex>      validateMediaType
    T <hex>      time.Parse(time.RFC3339, _) succeeds
-   K <fn> <exists> <key 0=full 1=digest 2=namespace> <failat|-> <at> <subject> <layers> <ann> <config> <config_ann> <store>
+   K <fn> <exists> <key 0=full 1=digest 2=namespace 3=file> <failat|-> <at> <subject> <layers> <ann> <config> <config_ann> <store>
    Descriptors  D:<mt>:<dg>:<size>:<ann>:<at>:<extra>   (hex fields, "-" = empty)
    Annotations  -  |  k=v;k=v
    Option       N | <desc>          List  N | L,<desc>,<desc>...
-   Store        S,<mt>:<dg>:<size>,...                                          *)
+   Store        S,<mt>:<dg>:<size>[:n],...   (n = named file of a file store)                                          *)
 let z_of_int (i : int) : z =
   if i = 0 then Z0 else if i > 0 then Zpos (pos_of_int i) else Zneg (pos_of_int (-i))
 let int_of_z (x : z) : int =
@@ -56,7 +56,8 @@ let store_of s =
   match split ',' s with
   | "S" :: es ->
     List.map (fun e -> match split ':' e with
-        | [mt; dg; sz] -> { e_mt = str_of_hex mt; e_dg = str_of_hex dg; e_sz = z_of_int (int_of_string sz); e_bytes = [] }
+        | [mt; dg; sz] -> { e_mt = str_of_hex mt; e_dg = str_of_hex dg; e_sz = z_of_int (int_of_string sz); e_bytes = []; e_named = false }
+        | [mt; dg; sz; "n"] -> { e_mt = str_of_hex mt; e_dg = str_of_hex dg; e_sz = z_of_int (int_of_string sz); e_bytes = []; e_named = true }
         | _ -> failwith "entry") es
   | _ -> failwith "store"
 
@@ -96,7 +97,7 @@ let () =
     | [id; "T"; h] -> Printf.printf "%s %s\n" id (if rfc3339_ok (str_of_hex h) then "1" else "0")
     | [id; "K"; f; ex; bd; fa; at; subj; layers; ann; cfg; cann; store; _spec] ->
       let tc = { t_exists = (ex = "1");
-                 t_key = (match bd with "0" -> KFull | "1" -> KDigest | "2" -> KNamespace | _ -> failwith "key") } in
+                 t_key = (match bd with "0" -> KFull | "1" -> KDigest | "2" -> KNamespace | "3" -> KFile | _ -> failwith "key") } in
       let fa = if fa = "-" then None else Some (nat_of_int (int_of_string fa)) in
       let o = { o_subject = odesc_of subj; o_layers = list_of layers; o_ann = ann_of ann;
                 o_config = odesc_of cfg; o_config_ann = ann_of cann } in
